@@ -601,10 +601,6 @@ func (d *partialDoc) add(key string, val *lazyNode, options *ApplyOptions) error
 }
 
 func (d *partialDoc) get(key string, options *ApplyOptions) (*lazyNode, error) {
-	if key == "" {
-		return d.self, nil
-	}
-
 	if d.obj == nil {
 		return nil, ErrExpectedObject
 	}
@@ -712,10 +708,6 @@ func (d *partialArray) add(key string, val *lazyNode, options *ApplyOptions) err
 func (d *partialArray) get(key string, options *ApplyOptions) (*lazyNode, error) {
 	if d == nil {
 		return nil, ErrInvalid
-	}
-
-	if key == "" {
-		return d.self, nil
 	}
 
 	idx, err := strconv.Atoi(key)
@@ -1060,16 +1052,6 @@ func (p Patch) move(doc *container, op Operation, options *ApplyOptions) error {
 		return fmt.Errorf("error in move for path: '%s': %w", key, err)
 	}
 
-	if key == "" && val != nil {
-		// get("") hands out the container's own bookkeeping node, which is not part
-		// of the document tree: move a copy of it, never the node itself, so that
-		// no node is ever reachable twice (a shared node can be made its own child).
-		val, _, err = deepCopy(val, options)
-		if err != nil {
-			return fmt.Errorf("error in move for path: '%s': %w", key, err)
-		}
-	}
-
 	err = con.remove(key, options)
 	if err != nil {
 		return fmt.Errorf("error in move for path: '%s': %w", key, err)
@@ -1163,20 +1145,26 @@ func (p Patch) copy(doc *container, op Operation, accumulatedCopySize *int64, op
 		return fmt.Errorf("copy operation failed to decode from: %w", err)
 	}
 
-	con, key := findObject(doc, from, options)
-
-	if con == nil {
-		return fmt.Errorf("copy operation does not apply: doc is missing from path: \"%s\": %w", from, ErrMissing)
-	}
-
-	val, err := con.get(key, options)
-	if err != nil {
-		return fmt.Errorf("error in copy for from: '%s': %w", from, err)
-	}
+	var val *lazyNode
 
 	if from == "" {
-		// the whole document as it is now, not the text it was parsed from
+		// the whole document as it is now
 		val = rootNode(*doc)
+		if val.isNull() {
+			// the root was replaced by null: there is no container to copy
+			return fmt.Errorf("copy operation does not apply: the document is null: %w", ErrInvalid)
+		}
+	} else {
+		con, key := findObject(doc, from, options)
+
+		if con == nil {
+			return fmt.Errorf("copy operation does not apply: doc is missing from path: \"%s\": %w", from, ErrMissing)
+		}
+
+		val, err = con.get(key, options)
+		if err != nil {
+			return fmt.Errorf("error in copy for from: '%s': %w", from, err)
+		}
 	}
 
 	path, err := op.Path()
@@ -1184,7 +1172,7 @@ func (p Patch) copy(doc *container, op Operation, accumulatedCopySize *int64, op
 		return fmt.Errorf("copy operation failed to decode path: %w", ErrMissing)
 	}
 
-	con, key = findObject(doc, path, options)
+	con, key := findObject(doc, path, options)
 
 	if con == nil {
 		return fmt.Errorf("copy operation does not apply: doc is missing destination path: %s: %w", path, ErrMissing)
